@@ -400,6 +400,11 @@ def composite_oracle(run, drv=None):
         with set_composite_lp_aggregate(agg):
             adv = {k if isinstance(k, str) else tuple(k) for k in mod.out_keys}
         written = {k for k in out.keys(True, True) if k not in set(td.keys(True, True))}
+        if drv is not None:
+            # the key sets themselves against the model (Prob.writtenKeys / advertisedKeys)
+            ans = parse_sx(drv.ask(f"(c14.prob_keys {'true' if agg else 'false'} (x y) {mod.log_prob_key if agg else 'sample_log_prob'})"))
+            run.corr("prob_frame_keys", case, [sorted(map(str, written)), sorted(map(str, adv))],
+                     [sorted(map(str, ans[0])), sorted(map(str, ans[1]))])
         missing, extra = sorted(map(str, adv - written)), sorted(map(str, written - adv))
         if missing or extra:
             heads_only = agg and not missing and set(extra) <= {"x_log_prob", "y_log_prob"}
